@@ -96,7 +96,7 @@ package loadbalancer
 //@   guarantee no_early_readmission: !old(b.IsHealthy) && b.IsHealthy ==> now() > old(b.UnhealthyUntil)
 
 //@ func (*LoadBalancer).MarkBackendUnhealthy
-//@   props C02 C04 C12
+//@   props C02 C04 C12 C03
 //@   mode seq, mon
 //@   requires backend != nil && unlocked(backend.Mutex) && lbOK(lb)
 //@   requires unlocked(lb.metricsCollector.metrics.mutex) && bmCellsOK(lb.metricsCollector)
@@ -106,7 +106,7 @@ package loadbalancer
 //@   modifies backend.IsHealthy, backend.UnhealthyUntil, mapof(lb.metricsCollector.metrics.BackendMetrics), metrics.BackendMetrics.IsHealthy, metrics.BackendMetrics.LastHealthCheck
 
 //@ func (*LoadBalancer).IsBackendHealthy
-//@   props C02 C04 C12
+//@   props C02 C04 C12 C03
 //@   mode seq, mon
 //@   requires backend != nil && unlocked(backend.Mutex) && lbOK(lb)
 //@   requires unlocked(lb.metricsCollector.metrics.mutex) && bmCellsOK(lb.metricsCollector)
@@ -144,7 +144,7 @@ package loadbalancer
 //@ pred failCount(lb *LoadBalancer, name string) int := has(lb.healthChecks.unhealthyBackends, name) ? lb.healthChecks.unhealthyBackends[name] : 0
 
 //@ func (*LoadBalancer).handlePassiveHealthCheck
-//@   props C04 C12
+//@   props C04 C12 C03
 //@   requires backend != nil && r != nil && unlocked(backend.Mutex) && lbOK(lb) && unlocked(lb.healthChecks.unhealthyBackendMu)
 //@   requires lb.healthChecks.unhealthyBackends != nil && lb.healthChecks.passiveThreshold >= 1
 //@   requires unlocked(lb.metricsCollector.metrics.mutex) && bmCellsOK(lb.metricsCollector)
@@ -380,7 +380,7 @@ package loadbalancer
 //@ pred poolNonNil(lb *LoadBalancer) := forall b *Backend :: inPool(lb, b) ==> b != nil
 
 //@ func (*LoadBalancer).findHealthyBackend
-//@   props C02 C04 C12
+//@   props C02 C04 C12 C03
 //@   requires lbOK(lb) && idle(lb) && poolOK(lb) && r != nil && bmCellsOK(lb.metricsCollector)
 //@   ensures only_eligible: result != nil ==> result.IsHealthy && inPool(lb, result)
 //@   ensures none_only_if_all_ejected: result == nil ==> forall b *Backend :: inPool(lb, b) ==> !b.IsHealthy && entry_now() <= b.UnhealthyUntil
@@ -429,7 +429,7 @@ package loadbalancer
 //@      && mtx(lb).RateLimitedRequests < 9223372036854775808
 
 //@ func (*LoadBalancer).recordRequestMetrics
-//@   props C04 C13 C12
+//@   props C04 C13 C12 C03
 //@   requires backend != nil && reqOK(lb, r) && lbOK(lb) && idle(lb) && bmCellsOK(lb.metricsCollector) && passiveOK(lb) && below2to63(lb)
 //@   ensures one_outcome: outcomes(lb) == old(outcomes(lb)) + 1 && mtx(lb).RateLimitedRequests == old(mtx(lb).RateLimitedRequests)
 //@   ensures classified_ok: statusCode < 500 ==> mtx(lb).SuccessfulRequests == old(mtx(lb).SuccessfulRequests) + 1 && mtx(lb).FailedRequests == old(mtx(lb).FailedRequests)
@@ -449,7 +449,7 @@ package loadbalancer
 //@            metrics.BackendMetrics.FailedRequests, metrics.BackendMetrics.AverageResponseTime, metrics.Metrics.SuccessfulRequests, metrics.Metrics.FailedRequests, metrics.Metrics.avgResponseTimeBits
 
 //@ func (*LoadBalancer).proxyRequest
-//@   props C01 C07 C13 C12
+//@   props C01 C07 C13 C12 C03
 //@   may_panic
 //@   requires backend != nil && backend.ReverseProxy != nil && reqOK(lb, r) && lbOK(lb) && idle(lb) && bmCellsOK(lb.metricsCollector) && passiveOK(lb) && below2to63(lb)
 //@   ensures gauge_restored: backend.ActiveConnections == old(backend.ActiveConnections)
@@ -474,7 +474,7 @@ package loadbalancer
 //@      && bmCellsOK(lb.metricsCollector) && passiveOK(lb) && below2to63(lb)
 
 //@ func (*LoadBalancer).handleRequest
-//@   props C02 C07 C13 C12
+//@   props C02 C07 C13 C12 C03
 //@   may_panic
 //@   requires servingOK(lb, r) && w != nil
 //@   ensures one_outcome: outcomes(lb) == old(outcomes(lb)) + 1 && mtx(lb).RateLimitedRequests == old(mtx(lb).RateLimitedRequests)
@@ -498,7 +498,7 @@ package loadbalancer
 //@ pred breakerOK(lb *LoadBalancer) := lb.circuitBreaker != nil ==> unlocked(lb.circuitBreaker.mutex) && cbInv(lb.circuitBreaker)
 
 //@ func (*LoadBalancer).checkRateLimit
-//@   props C09 C13 C12
+//@   props C09 C13 C12 C03
 //@   requires reqOK(lb, r) && r.Header != nil && w != nil && lbOK(lb) && limiterOK(lb) && below2to63(lb)
 //@   ensures allowed_untouched: result ==> outcomes(lb) == old(outcomes(lb)) && mtx(lb).RateLimitedRequests == old(mtx(lb).RateLimitedRequests)
 //@   ensures limited_429: !result ==> mtx(lb).RateLimitedRequests == old(mtx(lb).RateLimitedRequests) + 1 && outcomes(lb) == old(outcomes(lb)) + 1
@@ -509,7 +509,7 @@ package loadbalancer
 //@            ratelimiter.TokenBucketRateLimiter.buckets, ratelimiter.bucket.tokens, ratelimiter.bucket.lastRefill, ratelimiter.bucket.adm, ratelimiter.bucket.seen, ratelimiter.bucket.pre
 
 //@ func (*LoadBalancer).ServeHTTP
-//@   props C07 C09 C13 C12
+//@   props C07 C09 C13 C12 C03
 //@   may_panic
 //@   requires servingOK(lb, r) && r.Header != nil && w != nil && limiterOK(lb) && breakerOK(lb) && mtx(lb).TotalRequests < 9223372036854775808
 //@   ensures every_request_counted_once: mtx(lb).TotalRequests == old(mtx(lb).TotalRequests) + 1 && outcomes(lb) == old(outcomes(lb)) + 1
@@ -651,9 +651,20 @@ package loadbalancer
 //@   invariant not_found_yet: forall k int :: {ranged[k]} 0 <= k && k <= rangeindex ==> ranged[k].Name != name
 //@   decreases len(ranged) - rangeindex
 
+// C03: the transport built for a backend has finite positive dial / response-header / idle timeouts for every
+// accepted configuration (second-valued fields in [0, 2^33): 0 selects the default)
+//@ ghost var lastDialTimeout Int
+//@ ghost var lastHeaderTimeout Int
+//@ ghost var lastIdleTimeout Int
 //@ func (*LoadBalancer).AddBackend
 //@   props C11 C05 C03 C12
 //@   requires adminOK(lb) && namesUnique(lb) && poolNonNil(lb)
+//@   requires 0 <= lb.config.Server.Timeouts.BackendDial && lb.config.Server.Timeouts.BackendDial < 8589934592 && 0 <= lb.config.Server.Timeouts.BackendRead
+//@             && lb.config.Server.Timeouts.BackendRead < 8589934592 && 0 <= lb.config.Server.Timeouts.BackendIdle && lb.config.Server.Timeouts.BackendIdle < 8589934592
+//@   ghost before AddBackend :: lastDialTimeout := dialTimeout
+//@   ghost before AddBackend :: lastHeaderTimeout := transport.ResponseHeaderTimeout
+//@   ghost before AddBackend :: lastIdleTimeout := transport.IdleConnTimeout
+//@   ensures backend_timeouts_positive: result == nil ==> lastDialTimeout > 0 && lastHeaderTimeout > 0 && lastIdleTimeout > 0
 //@   ensures added_is_listed_and_eligible: result == nil ==> exists b *Backend :: inPool(lb, b) && fresh(b) && b.Name == backendCfg.Name && b.IsHealthy
 //@             && b.Weight == max(1, backendCfg.Weight) && b.ActiveConnections == 0 && b.ReverseProxy != nil
 //@   ensures existing_are_kept: forall b *Backend :: old(inPool(lb, b)) ==> inPool(lb, b)
@@ -663,7 +674,8 @@ package loadbalancer
 //@   ensures same_strategy: lb.strategy == old(lb.strategy)
 //@   ensures cells: bmCellsOK(lb.metricsCollector)
 //@   modifies RoundRobinStrategy.backends, LeastConnectionsStrategy.backends, WeightedRoundRobinStrategy.backends, IPHashStrategy.backends, IPHashConsistentStrategy.backends,
-//@            key:[]*loadbalancer.Backend, key:[]*loadbalancer.weightedBackend, mapof(lb.metricsCollector.metrics.BackendMetrics), metrics.BackendMetrics.IsHealthy, metrics.BackendMetrics.LastHealthCheck
+//@            key:[]*loadbalancer.Backend, key:[]*loadbalancer.weightedBackend, mapof(lb.metricsCollector.metrics.BackendMetrics), metrics.BackendMetrics.IsHealthy, metrics.BackendMetrics.LastHealthCheck,
+//@            lastDialTimeout, lastHeaderTimeout, lastIdleTimeout
 //@ loop (*LoadBalancer).AddBackend #0
 //@   props C11 C05 C03 C12
 //@   invariant idx: rangeindex < len(ranged)
@@ -743,3 +755,67 @@ package loadbalancer
 //@   invariant snapshot_kept: forall x int :: {backing(x, []*Backend)} backing(x, []*Backend) == old(backing(x, []*Backend))
 //@   invariant locks: noBackendLocks()
 //@   decreases len(backends) - rangeindex
+
+// ---------------------------------------------------------------------------------------------------
+// Shutdown (C19). lb.cancel is the cancel function of lb.ctx (created together in NewLoadBalancer): calling it
+// cancels lb.ctx permanently (assumed context contract).
+//@ func fnvalue:(*LoadBalancer).Stop:cancel
+//@   ensures lb.ctx.cancelled
+//@   modifies lb.ctx.cancelled
+
+//@ pred allIdleOK() := forall c *connPool :: forall i int :: {c.idle[i]} 0 <= i && i < len(c.idle) ==> c.idle[i].conn != nil
+//@ pred noConnPoolLocks() := forall c *connPool :: {c.mu} unlocked(c.mu)
+//@ loop (*WebSocketPool).Shutdown #0
+//@   props C19 C20
+//@   invariant held: wlocked(p.mu) && noConnPoolLocks() && allIdleOK() && p.pools != nil
+//@   invariant pools_nonnil: forall k string :: {p.pools[k]} has(p.pools, k) ==> p.pools[k] != nil
+//@   modifies connPool.idle, net.Conn.closed
+//@ loop (*WebSocketPool).Shutdown #1
+//@   props C19 C20
+//@   invariant idx: rangeindex < len(ranged)
+//@   invariant elems: forall i int :: {ranged[i]} 0 <= i && i < len(ranged) ==> ranged[i].conn != nil
+//@   invariant held: wlocked(p.mu) && wlocked(pool.mu) && pool != nil
+//@   decreases len(ranged) - rangeindex
+//@   modifies net.Conn.closed
+//@ func (*WebSocketPool).Shutdown
+//@   props C19 C20
+//@   requires unlocked(p.mu) && poolsOK(p) && noConnPoolLocks() && allIdleOK()
+//@   ensures pool_emptied: len(p.pools) == 0 && p.pools != nil
+//@   modifies p.pools, key:map[string]*loadbalancer.connPool, connPool.idle, net.Conn.closed
+
+//@ func (*LoadBalancer).Stop
+//@   props C19 C03
+//@   requires lb.cancel != nil && (lb.wsPool != nil ==> unlocked(lb.wsPool.mu) && poolsOK(lb.wsPool) && noConnPoolLocks() && allIdleOK())
+//@   ensures context_cancelled_before_return: lb.ctx.cancelled
+//@   ensures pool_emptied: lb.wsPool != nil ==> len(lb.wsPool.pools) == 0
+//@   modifies lb.ctx.cancelled, WebSocketPool.pools, key:map[string]*loadbalancer.connPool, connPool.idle, net.Conn.closed
+
+// a probe routine entered after cancellation sends nothing and touches nothing
+//@ func (*LoadBalancer).checkBackendHealth
+//@   props C19 C04 C03
+//@   may_panic
+//@   requires backend != nil && backend.URL != nil && lbOK(lb) && lb.ctx != nil && noBackendLocks() && unlocked(lb.metricsCollector.metrics.mutex) && bmCellsOK(lb.metricsCollector)
+//@   ensures no_probe_after_cancel: old(lb.ctx.cancelled) ==> probesSent == old(probesSent) && backend.IsHealthy == old(backend.IsHealthy) && backend.UnhealthyUntil == old(backend.UnhealthyUntil)
+//@   ensures at_most_one_probe: probesSent <= old(probesSent) + 1
+//@   modifies chanClosed, probesSent, lastSentCtx, backend.IsHealthy, backend.UnhealthyUntil, mapof(lb.metricsCollector.metrics.BackendMetrics), metrics.BackendMetrics.IsHealthy, metrics.BackendMetrics.LastHealthCheck
+
+// probes carry the balancer's context, so a probe in flight is aborted by Stop
+//@ func (*LoadBalancer).performHealthCheck
+//@   props C19
+//@   requires backend != nil && backend.URL != nil && lb.healthChecks != nil && lb.ctx != nil
+//@   ensures probe_carries_balancer_context: probesSent == old(probesSent) + 1 ==> lastSentCtx == ptr(lb.ctx)
+//@   ensures at_most_one: probesSent == old(probesSent) || probesSent == old(probesSent) + 1
+//@   ensures result_shape: result1 == nil ==> result0 != nil && result0.Body != nil
+//@   modifies probesSent, lastSentCtx
+
+// The state-change callback the balancer installs on its breaker (C08/C03). The breaker guarantees that a
+// notification runs with the breaker's lock NOT held (see circuitbreaker: notification_runs_unlocked); under
+// exactly that guarantee the callback's call to Counts() - which takes the lock - is safe.
+//@ func (*LoadBalancer).setupCircuitBreaker$1
+//@   props C08 C03 C12
+//@   requires lb != nil && lb.circuitBreaker != nil && unlocked(lb.circuitBreaker.mutex) && lb.metricsCollector != nil && lb.metricsCollector.metrics != nil
+//@   requires lb.metricsCollector.metrics.CircuitBreakerMetrics != nil && unlocked(lb.metricsCollector.metrics.mutex)
+//@   requires forall k string :: {lb.metricsCollector.metrics.CircuitBreakerMetrics[k]} has(lb.metricsCollector.metrics.CircuitBreakerMetrics, k) ==> lb.metricsCollector.metrics.CircuitBreakerMetrics[k] != nil
+//@   ensures lock_free_again: unlocked(lb.circuitBreaker.mutex)
+//@   modifies mapof(lb.metricsCollector.metrics.CircuitBreakerMetrics), metrics.CircuitBreakerMetrics.State, metrics.CircuitBreakerMetrics.FailureCount, metrics.CircuitBreakerMetrics.SuccessCount,
+//@            metrics.CircuitBreakerMetrics.RequestCount, metrics.CircuitBreakerMetrics.LastStateChange
